@@ -706,7 +706,7 @@ class VAMTransmissionManagement:
                 self.send_next_vam(vam=vam_to_send)
                 return
 
-    def _attach_lf_container_if_due(self, vam: VAMMessage) -> None:
+    def _attach_lf_container_if_due(self, vam: VAMMessage) -> float | None:
         """Attach ``vruLowFrequencyContainer`` to *vam* when required.
 
         The Low-Frequency Container shall be included (clause 6.2):
@@ -722,6 +722,14 @@ class VAMTransmissionManagement:
         ----------
         vam:
             The :class:`VAMMessage` that is about to be transmitted.
+
+        Returns
+        -------
+        float or None
+            The generation time (seconds) when the container was attached,
+            ``None`` otherwise.  The caller records it as the time of the last
+            LF container once the VAM has been handed to the lower layer: a
+            VAM that fails to be sent must not restart the LF interval.
         """
         # Generation time comes from the time service (like every other
         # timestamp of the message), compared in whole milliseconds.
@@ -743,7 +751,8 @@ class VAMTransmissionManagement:
             vam.vam["vam"]["vamParameters"]["vruLowFrequencyContainer"] = {
                 "profileAndSubprofile": ("pedestrian", "unavailable")
             }
-            self.last_lf_vam_time = now
+            return now
+        return None
 
     def send_next_vam(self, vam: VAMMessage) -> None:
         """Encode and send *vam* via the BTP router.
@@ -774,7 +783,7 @@ class VAMTransmissionManagement:
 
         # Attach LF container when due (must be done *after* cluster-op is
         # present so has_cluster_op detection inside the helper works).
-        self._attach_lf_container_if_due(vam)
+        lf_attached_at = self._attach_lf_container_if_due(vam)
 
         if self.vru_basic_service_ldm is not None:
             vam_ldm = vam.vam.copy()
@@ -820,3 +829,5 @@ class VAMTransmissionManagement:
                 ]["heading"]["value"] / 10.0
             )
             self.is_first_vam = False
+            if lf_attached_at is not None:
+                self.last_lf_vam_time = lf_attached_at
